@@ -22,12 +22,12 @@ ASSUMPTIONS = ["regions with a pinch point are invalid for shapely; the code doc
 
 
 # ------------------------------------------------------------------ generators
-def region_strategy():
+def region_strategy(kinds=("convex", "star", "L", "U", "pinch", "box", "comb")):
     from hypothesis import strategies as st
 
     @st.composite
     def region(draw):
-        kind = draw(st.sampled_from(["convex", "star", "L", "U", "pinch", "box"]))
+        kind = draw(st.sampled_from(list(kinds)))
         ox, oy = draw(st.integers(50, 1500)), draw(st.integers(50, 1500))
         integer = draw(st.booleans())
         valid = True
@@ -53,7 +53,23 @@ def region_strategy():
             a = draw(st.integers(40, w // 2 - 40))
             c = draw(st.integers(40, w // 2 - 40))
             d = draw(st.integers(40, h - 60))
-            poly = [(0, 0), (a, 0), (a, d), (w - c, d), (w - c, 0), (w, 0), (w, h), (0, h)]
+            t2 = draw(st.sampled_from([0, 1])) * draw(st.integers(5, d - 20))      # arms of unequal height
+            poly = [(0, 0), (a, 0), (a, d), (w - c, d), (w - c, t2), (w, t2), (w, h), (0, h)]
+        elif kind == "comb":
+            # a body with 2-4 teeth of different widths and heights: lines across the teeth enter it several times
+            nt = draw(st.integers(2, 4))
+            h = draw(st.integers(200, 500))
+            d = draw(st.integers(60, h - 60))
+            poly, x = [], 0
+            for i in range(nt):
+                tw, top = draw(st.integers(25, 160)), draw(st.sampled_from([0, 1])) * draw(st.integers(5, d - 20))
+                poly += [(x, top), (x + tw, top)]
+                x += tw
+                if i < nt - 1:
+                    gap = draw(st.integers(20, 120))
+                    poly += [(x, d), (x + gap, d)]
+                    x += gap
+            poly += [(x, h), (0, h)]
         elif kind == "pinch":
             w, h = draw(st.integers(200, 500)), draw(st.integers(200, 400))
             poly = [(0, 0), (w, 0), (w / 2, h / 2), (w, h), (0, h), (w / 2, h / 2)]
@@ -94,6 +110,10 @@ def strat_assign():
     def case(draw):
         crowded = draw(st.integers(0, 39)) == 0         # a full page: a dozen regions, dozens of lines
         regs = draw(st.lists(region_strategy(), min_size=1, max_size=4)) if not crowded else draw(st.lists(region_strategy(), min_size=8, max_size=14))
+        # lines entering a region several times: concave regions with arms of unequal width and height, lines right across
+        reentrant = (not crowded) and draw(st.integers(0, 5)) == 0
+        if reentrant:
+            regs = draw(st.lists(region_strategy(("comb", "comb", "U")), min_size=1, max_size=2))
         if len(regs) >= 2 and draw(st.integers(0, 3)) == 0:
             # nested: shrink a copy of region 0 around its centroid
             p0 = regs[0]["poly"]
@@ -102,7 +122,7 @@ def strat_assign():
             regs[1] = dict(kind="nested", poly=[(cx + (x - cx) * 0.5, cy + (y - cy) * 0.5) for x, y in p0], valid=regs[0]["valid"], integer=False)
         lines = []
         for _ in range(draw(st.integers(0, 8)) if not crowded else draw(st.integers(20, 35))):
-            mode = draw(st.sampled_from(["inside", "inside", "cross", "span", "far", "random", "arch"]))
+            mode = draw(st.sampled_from(["inside", "inside", "cross", "span", "span_edge", "span_edge", "far", "random", "arch"] if not reentrant else ["span", "span_edge", "span_edge", "cross"]))
             r = regs[draw(st.integers(0, len(regs) - 1))]
             ys = [p[1] for p in r["poly"]]
             xs = [p[0] for p in r["poly"]]
@@ -121,6 +141,11 @@ def strat_assign():
                     ext = draw(st.integers(15, 120))
                     x0 = a - ext if side in ("left", "both") else a + 8
                     x1 = b + ext if side in ("right", "both") else b - 8
+            elif mode == "span_edge":
+                # right across the region a few pixels below (or above) one of its corners: a region edge runs between
+                # the baseline and the ascender / descender height
+                y = draw(st.sampled_from(sorted(set(ys)))) + draw(st.integers(2, 12)) * draw(st.sampled_from([1, 1, -1]))
+                x0, x1 = min(xs) - draw(st.integers(10, 80)), max(xs) + draw(st.integers(10, 80))
             elif mode == "span":
                 x0, x1 = min(xs) - draw(st.integers(10, 80)), max(xs) + draw(st.integers(10, 80))
             elif mode == "far":
@@ -157,10 +182,10 @@ def strat_assign():
             if not ok:
                 pts = [pts[0], (pts[0][0] + max(2.0, x1 - x0), pts[0][1])]
             # lines of rotated passes run right to left or along the vertical axis
-            orient = draw(st.sampled_from(["ltr", "ltr", "ltr", "rtl", "vertical_down", "vertical_up"]))
+            orient = draw(st.sampled_from(["ltr", "ltr", "ltr", "rtl", "vertical_down", "vertical_up"] if not reentrant else ["ltr", "ltr", "rtl"]))
             if orient == "rtl":
                 pts = pts[::-1]
-            elif orient.startswith("vertical") and mode in ("inside", "cross", "span"):
+            elif orient.startswith("vertical") and mode in ("inside", "cross", "span", "span_edge"):
                 # a vertical chord through the region's bounding box at a drawn x
                 xv = draw(st.floats(min(xs) + 3, max(xs) - 3, allow_nan=False)) if max(xs) - min(xs) > 8 else (min(xs) + max(xs)) / 2
                 if integer:
@@ -424,6 +449,23 @@ def body_extractor(ctx, case):
             ref = poly if (spec and spec[0]["valid"]) else geom.convex_hull(poly)
             for line in reg.lines:
                 check_placed_line(ctx, line, None, ref, tol, desc, check_piece=False)
+    if not case["simple"] and not case["detect_regions"] and case["detect_lines"] and not case["merge_lines"]:
+        # given regions: every pass (orientation) hands its lines to the same regions, and every line lying wholly
+        # inside a region is placed there - in every pass
+        passes = (0, 1, 3) if case["multi"] else (0,)
+        for reg, rs in zip(out.regions, base["regions"]):
+            if not rs["valid"]:
+                continue
+            want = 0
+            for rot in passes:
+                for i in case["per_rot"].get(rot, []):
+                    l = base["lines"][i]
+                    if geom.polyline_length(l["baseline"]) > 2.5 and classify_pair(l["baseline"], ref_poly(rs)) == "inside":
+                        want += 1
+            ctx.check(len(reg.lines) >= want, "inside_line_of_some_pass_not_placed",
+                      lambda: "region %s holds %d lines, %d detections (over passes %r) lie wholly inside it; " % (reg.id, len(reg.lines), want, passes) + desc())
+            if want >= 2 and case["multi"]:
+                ctx.event("several_passes_place_lines_in_a_given_region")
     n_lines = len(ids)
     if len(base["regions"]) >= 2 and n_lines >= 2 and (case["multi"] or case["merge_lines"]):
         ctx.nontrivial(repr(case))
